@@ -52,6 +52,8 @@ class StateModes:
         self.starting_jobs: bool = False
         self.stopping_jobs: bool = False
         self.instance_states: Dict[str, SupvisorsInstanceStates] = {}
+        # the monotonic time (in the remote reference) of the latest update considered
+        self.update_mtime: float = 0.0
 
     @property
     def identifier(self):
@@ -99,6 +101,7 @@ class StateModes:
         self.stopping_jobs = payload['stopping_jobs']
         self.instance_states = {identifier: SupvisorsInstanceStates[state_name]
                                 for identifier, state_name in payload['instance_states'].items()}
+        self.update_mtime = payload.get('now_monotonic', self.update_mtime)
 
     def serial(self):
         """ Return a serializable form of the StatesModes. """
@@ -345,7 +348,13 @@ class SupvisorsStateModes:
         """ The event is fired on change by the remote Supvisors instance. """
         # ignore if sent by the local Supvisors instance because information may be lost in the gap
         if identifier != self.local_identifier:
-            self.instance_state_modes[identifier].update(event)
+            state_modes = self.instance_state_modes[identifier]
+            # NOTE: the state and modes got from the hand-shake and those published do not follow the same path,
+            #       so an older status shall not supersede a more recent one (nothing would correct it afterwards)
+            if event.get('now_monotonic', state_modes.update_mtime) < state_modes.update_mtime:
+                self.logger.debug(f'SupvisorsStateModes.on_instance_state_event: obsolete event from {identifier}')
+                return
+            state_modes.update(event)
             # export the Supvisors status because starting / stopping identifiers may have changed
             self.export_status()
 
